@@ -62,9 +62,28 @@ def owner_item(meta, root_item, in_decl):
     return root_item
 
 
+def dep_closure(meta, item_id):
+    seen = set()
+
+    def go(i):
+        if i in seen or i not in meta["items"]:
+            return
+        seen.add(i)
+        for c in meta["items"][i]["deps"]:
+            go(c)
+    go(item_id)
+    return seen
+
+
 def key_tags(meta, item_id):
-    tags = text_closure_tags(meta, item_id)
-    return sorted(t for t in tags if t.startswith(RISKY))
+    """Risky tags of the item's textual closure, plus `dep:k:*` for named defect constructs anywhere below it
+    (a defect in a dependency surfaces in every type that contains its values)."""
+    tags = set(t for t in text_closure_tags(meta, item_id) if t.startswith(RISKY))
+    for d in dep_closure(meta, item_id):
+        for t in meta["items"][d]["tags"]:
+            if t.startswith("k:"):
+                tags.add("dep:" + t)
+    return sorted(tags)
 
 
 def run(pid, tier, seed):
@@ -75,7 +94,13 @@ def run(pid, tier, seed):
                 "least one attribute, nesting or enum representation that had >=1 structured (object/array) value checked")
     chk.assumptions = ["serde 1.0.215 / serde_json 1.0.133 are the wire format", "swc_ecma_parser 0.144.1 is the TypeScript grammar",
                        "tsmodel semantics (DESIGN.md section 2): exact objects, bigint = JSON integer, lenient index-signature intersection"]
-    corpus = sem_corpus(seed, tier)
+    if pid == "C02":
+        # serde's buffered deserializers (untagged / internally / adjacently tagged, flatten) cannot parse
+        # integer map keys or 128-bit integers: outside "types on which serde round-trips" (Appendix A.11)
+        prof = tsgen.Profile(max_depth=3 if tier == "quick" else 4, string_keys_only=True, big_ints=False)
+        corpus = sem_corpus(seed, tier, family="semd", profile=prof)
+    else:
+        corpus = sem_corpus(seed, tier)
     try:
         derive_errors = corpus.build()
     except C.Inconclusive as e:
@@ -141,7 +166,23 @@ def run(pid, tier, seed):
                                           "owner_source": meta["items"].get(owner, {}).get("source"),
                                           "fail": f, "ts": ev.get("ts"), "decls": ev.get("decls")}, tags=kt)
             for inc in ev.get("inconclusive", []):
-                chk.hist("inconclusive_types", reason_class(str(inc.get("reason"))))
+                reason = str(inc.get("reason"))
+                m = re.match(r"unresolved-name:(\w+)", reason)
+                if m:
+                    name = m.group(1)
+                    broken = any(k.startswith("unparseable-decl") and re.match(r"type %s\b" % re.escape(name), d)
+                                 for k, d in ev.get("problems", []))
+                    if broken:
+                        continue    # already reported as unparseable-decl
+                    # a name used by the binding that is not among the declarations ts-rs says it depends on
+                    kt = key_tags(meta, root)
+                    chk.violation(f"{pid}|unresolved-name|{root}|{','.join(kt)}",
+                                  f"type {ev.get('rust')} refers to {name}, which is not among its (transitive) dependencies: "
+                                  f"{str(ev.get('ts'))[:300]}",
+                                  {"entry": eid, "rust": ev.get("rust"), "source": closure_source(meta, root), "ts": ev.get("ts"),
+                                   "decls": ev.get("decls")}, tags=kt)
+                else:
+                    chk.hist("inconclusive_types", reason_class(reason))
     chk.coverage_extra["dropped_by_rustc"] = {k: len(v) for k, v in corpus.dropped.items()}
     n_types = sum(1 for r in results for ev in r["events"] if ev.get("ev") == "type")
     chk.coverage_extra["types"] = n_types
